@@ -29,6 +29,8 @@ def build_options(o, output_file=None):
     # a positive progress interval switches tqdm off (the runner then only logs); the
     # progress-reporting configurations are varied on purpose in C11
     kw.setdefault("progress_interval", 10**9)
+    if kw["progress_interval"] == "none":
+        kw["progress_interval"] = None
     return tdgl.SolverOptions(**kw)
 
 
